@@ -319,6 +319,14 @@ def routing(rc):
         rc.ob(f"is_dconnected -> {norm(c)}")
         if a0 != p[1] or a1 != p[3]:
             rc.fail(fi, c, "is_dconnected must pass (start, observed) unchanged to active_trail_nodes")
+        # active_trail_nodes strips latent nodes from its answer unless asked not to: `end` may itself be latent
+        il = kwarg(c, "include_latents") or (c.args[2] if len(c.args) > 2 else None)
+        dflt = base.param_default("include_latents")
+        strips = isinstance(dflt, ast.Constant) and dflt.value is False
+        rc.ob(f"is_dconnected asks for latents in the active set: {norm(il) if il is not None else None} (active_trail_nodes strips them by default: {strips})")
+        if strips and not (isinstance(il, ast.Constant) and il.value is True):
+            rc.fail(fi, c, "is_dconnected tests `end in active_trail_nodes(start, observed)[start]`, but active_trail_nodes removes latent nodes from its answer by default: "
+                    "for a latent `end` the answer is always False, even for adjacent nodes (and minimal_dseparator / the causal criteria build on it)", construct="is_dconnected latent end")
         par = getattr(c, "_parent", None)
         if not (isinstance(par, ast.Subscript) and dotted(par.slice) == p[1]):
             rc.fail(fi, c, "is_dconnected must read the active set of `start`")
@@ -548,6 +556,8 @@ def defuse(rc):
     _sh.defuse_rule(rc, _sh.anchor_files("C08"))
 
 MUTANTS = [
+    dict(kind="break", name="is-dconnected-strips-latents", file=DAG, expect="C08.routing",
+         old="            in self.active_trail_nodes(start, observed, include_latents=True)[start]", new="            in self.active_trail_nodes(start, observed)[start]"),
     dict(kind="break", name="start-down", file=DAG, expect="C08.table",
          old='visit_list.add((start, "up"))', new='visit_list.add((start, "down"))'),
     dict(kind="break", name="up-ignores-observed", file=DAG, expect="C08.table",
